@@ -2848,6 +2848,114 @@ theorem objFnPrim_refines (f : ObjFn) (a : PrimArg) (h : devPrim f = false) : ob
 /-- `Object.getOwnPropertyNames(1)` is [] (ES5: TypeError) -/
 example : objFnPrim .getOwnPropertyNames .number ≠ Spec.objFnPrim .getOwnPropertyNames .number := by decide
 
+/-! ## ToPropertyDescriptor read order, primitive bases, built-ins under a polluted prototype -/
+
+/-- **the fields of a descriptor object are read in the order of §8.10.5** and the conflict TypeError comes last -/
+theorem readOrder_refines (d : Desc) : readOrder d = Spec.readOrder d := by
+  obtain ⟨e, c, w, v, g, s⟩ := d
+  cases g <;> cases s <;> cases v <;> cases w <;> cases e <;> cases c <;> rfl
+
+theorem builtinCreates_refines (b : Builtin) : builtinCreates b = Spec.builtinCreates b := by
+  cases b <;> rfl
+
+/-- the setter calls of [[Put]] are those of the special [[Put]] of §8.7.2 -/
+theorem putPrimitive_eq_put (h : SHeap) (a : Addr) (n : Name) (v : Val) :
+    Spec.putPrimitive h a n v = (Spec.put h a n v false).2.2 := by
+  simp only [Spec.putPrimitive, Spec.put]
+  cases h[a]? with
+  | none => rfl
+  | some o =>
+    simp only []
+    cases hc : Spec.canPut h o n with
+    | false => simp
+    | true =>
+      simp only [Bool.not_true, Bool.false_eq_true, if_false]
+      cases hl : alookup n o.props with
+      | none =>
+        simp only []
+        cases hg : Spec.getProperty h (fuel h) (some a) n with
+        | none => simp only []; cases Spec.defineOwn o n _ <;> rfl
+        | some p =>
+          cases p with
+          | data => simp only []; cases Spec.defineOwn o n _ <;> rfl
+          | acc g s e c => cases s <;> rfl
+      | some p =>
+        cases p with
+        | data => simp only []; cases Spec.defineOwn o n _ <;> rfl
+        | acc g s e c =>
+          simp only []
+          cases hg : Spec.getProperty h (fuel h) (some a) n with
+          | none => simp only []; cases Spec.defineOwn o n _ <;> rfl
+          | some q =>
+            cases q with
+            | data => simp only []; cases Spec.defineOwn o n _ <;> rfl
+            | acc g' s' e' c' => cases s' <;> rfl
+
+theorem defn_length (h : MHeap) (a : Addr) (n : Name) (d : DescArg) : (step h (.defn a n d)).1.length = h.length := by
+  simp only [step]
+  cases h[a]? with
+  | none => rfl
+  | some o =>
+    simp only []
+    cases OttoVerif.C07.toPropertyDescriptor d with
+    | none => rfl
+    | some desc =>
+      simp only []
+      cases defineOwn o n desc <;> simp
+
+theorem inv_primHeap0 : Inv primHeap0 := by
+  constructor
+  · intro a o h kp hkp
+    match a, h with
+    | 0, h => simp [primHeap0] at h; subst h; cases hkp
+    | 1, h => simp [primHeap0] at h; subst h; cases hkp
+    | a + 2, h => simp [primHeap0] at h
+  · intro a o p h hq
+    match a, h with
+    | 0, h => simp [primHeap0] at h; subst h; cases hq
+    | 1, h => simp [primHeap0] at h; subst h; cases hq; exact Nat.zero_lt_one
+    | a + 2, h => simp [primHeap0] at h
+
+/-- **assignment and read through a primitive base refine §8.7.1 / §8.7.2**: for every descriptor defined on
+    String/Number/Boolean.prototype or Object.prototype and every value, otto calls exactly the setter the
+    special [[Put]] calls (with the wrapper as receiver), and the value read back and the prototype's own
+    property are the ES5 ones -/
+theorem primAssign_refines (level : Addr) (d : DescArg) (v : Val) :
+    primAssign level d v = Spec.primAssign level d v := by
+  have hi := inv_primHeap0
+  obtain ⟨⟨hs1, hs2⟩, hinv⟩ := defn_refines primHeap0 level 0 d hi
+  have hlen : (step primHeap0 (.defn level 0 d)).1.length = 2 := defn_length primHeap0 level 0 d
+  have habs0 : absHeap primHeap0 = [⟨none, true, []⟩, ⟨some 0, true, []⟩] := rfl
+  rw [habs0] at hs1 hs2
+  simp only [primAssign, Spec.primAssign, putPrimitive_eq_put]
+  generalize step primHeap0 (.defn level 0 d) = RM at *
+  generalize Spec.step [⟨none, true, []⟩, ⟨some 0, true, []⟩] (.defn level 0 d) = RS at *
+  have hw : WFObj primWrapper := fun kp hkp => by cases hkp
+  have hinvw : Inv (RM.1 ++ [primWrapper]) := by
+    refine inv_append _ primWrapper hinv hw ?_
+    intro p hp
+    simp only [primWrapper, Option.some.injEq] at hp
+    rw [← hp, hlen]
+    exact Nat.lt_succ_self 1
+  have habsw : absHeap (RM.1 ++ [primWrapper]) = RS.1 ++ [⟨some 1, true, []⟩] := by
+    rw [← hs1]; simp [absHeap, primWrapper, absObj, absProps]
+  have hput := put_refines (RM.1 ++ [primWrapper]) false 2 0 v hinvw rfl
+  simp only [StepRefines, step, Spec.step, habsw] at hput
+  have hget := get_refines (RM.1 ++ [primWrapper]) 2 0
+  rw [habsw] at hget
+  have hout : RM.2.1 = RS.2.1 := by rw [hs2]
+  have hcalls : (put (RM.1 ++ [primWrapper]) 2 0 v false).2.2 = (Spec.put (RS.1 ++ [⟨some 1, true, []⟩]) 2 0 v false).2.2 := by
+    rw [hput.2]
+  have hlk : RS.1[level]? = (RM.1[level]?).map absObj := by rw [← hs1, absHeap_get]
+  rw [hout, hcalls, hget, hlk]
+  cases ho : RM.1[level]? with
+  | none => rfl
+  | some o =>
+    simp only [Option.map_some]
+    have := observeName_refines RM.1 level o (hinv.1 level o ho) 0
+    rw [hs1] at this
+    rw [this]
+
 /-! ## Non-vacuity of the hypotheses -/
 
 /-- a heap with a data and an accessor property … -/
